@@ -160,6 +160,8 @@ package valid
 // Abstract view: key k is live iff has(l.nodeMap, k); its value is eval(l.nodeMap[k]); its recency is
 // lst.stamp(l.list, l.nodeMap[k]) (larger = more recent). cb.* is the log of removal callbacks.
 
+//@ type LRUCache guarded_by rwMu : delMapCount, nodeMap, list props C10 C11
+
 //@ ghost cb.count() Int
 //@ ghost cb.key() Iface
 //@ ghost cb.val() Iface
@@ -241,3 +243,11 @@ package valid
 //@   ensures [C09 del.callback] old(has(l.nodeMap, key)) && l.deleteCallBackFn != nil ==> cb.count == old(cb.count) + 1 && cb.key == key && cb.val == old(eval(l.nodeMap[key]))
 //@   ensures [C09 del.nocallback] !old(has(l.nodeMap, key)) || l.deleteCallBackFn == nil ==> cb.count == old(cb.count)
 //@   ensures [C10 delete.unlocked] mu.held(addr.rwMu(l)) == 0 && mu.acq(addr.rwMu(l)) == old(mu.acq(addr.rwMu(l))) + 1
+
+//@ func (*LRUCache).Dump
+//@   requires lru.wf(l) && mu.held(addr.rwMu(l)) == 0
+//@   ensures [C10 dump.unlocked] mu.held(addr.rwMu(l)) == 0
+
+//@ func (*LRUCache).SetDelCallBackFn
+//@   requires l != nil
+//@   modifies l.deleteCallBackFn
